@@ -161,7 +161,10 @@ def timing(case):
     finally:
         px.stop()
 
-for (idle, udp), r in zip([(2, 2), (0, 0)], run_parallel([(2, 2), (0, 0)], timing, workers=2)):
+# periods whose millisecond count does not fit 64 bits must not turn into short ones
+HUGE = [18446744073709552, 2**64 - 1, 2**63, 36893488147419104]
+TCASES = [(2, 2), (0, 0)] + [(h, h) for h in HUGE]
+for (idle, udp), r in zip(TCASES, run_parallel(TCASES, timing, workers=6)):
     evals += 2
     if isinstance(r, tuple) or 'error' in r:
         machinery(f'timing {idle},{udp}: {r}')
@@ -176,17 +179,22 @@ for (idle, udp), r in zip([(2, 2), (0, 0)], run_parallel([(2, 2), (0, 0)], timin
             chk.violation('timeout.timing', 'silent-udp-session-not-closed-in-time', f'udp=2: reverse-udp session gone at {r["udp_gone"]}', replay)
         elif r['udp_gone'] < 2 - 0.05:
             chk.violation('timeout.timing', 'udp-session-closed-early', f'udp=2: gone after {r["udp_gone"]:.2f}s', replay)
-    else:
+    elif idle == 0:
         if r['tcp_closed'] is not None:
             chk.violation('timeout.timing', 'closed-although-timeout-is-0', f'idle=0: tunnel closed after {r["tcp_closed"]:.2f}s', replay)
         if r['udp_gone'] is not None:
             chk.violation('timeout.timing', 'closed-although-timeout-is-0:udp', f'udp=0: session gone after {r["udp_gone"]:.2f}s', replay)
+    else:
+        if r['tcp_closed'] is not None:
+            chk.violation('timeout.timing', 'huge-period-closes-early', f'idle={idle} s: silent tunnel closed after {r["tcp_closed"]:.2f}s', replay)
+        if r['udp_gone'] is not None:
+            chk.violation('timeout.timing', 'huge-period-closes-early:udp', f'udp={udp} s: session gone after {r["udp_gone"]:.2f}s', replay)
     samples.append(replay)
 
 echo.stop(); uecho.close()
 if evals < 30 or len(distinct) < 3:
     machinery(f'vacuous: evals={evals} distinct={len(distinct)}')
 cov = {'evaluations': evals, 'distinct_nontrivial': len(distinct), 'transitions': evals, 'traces_validated_against_impl': evals,
-       'rule': 'real binary: timeouts.idle x timeouts.udp grid (quick: half of the 16 cells) x 6 tunnel kinds, idle_timeout reported by /api/live vs configured/default; close timing of silent tcp and udp tunnels with T=2 and T=0',
+       'rule': 'real binary: timeouts.idle x timeouts.udp grid (quick: half of the 16 cells) x 6 tunnel kinds, idle_timeout reported by /api/live vs configured/default; close timing of silent tcp and udp tunnels with T=2, T=0 and four periods whose millisecond count exceeds 64 bits',
        'grid_cells': len(grid), 'tunnel_kinds': list(IS_UDP), 'schedule_control': 'kernel', 'samples': samples}
 sys.exit(chk.finish('model_checking', cov, ['E4 part: real clock; late bounds carry 1 s ticker (+1 s GC for the registry) + 2 s slack, early bounds 50 ms']))
